@@ -1757,7 +1757,9 @@ class Interp:
                 x = todo.pop()
                 for k in self.model.children_of(x):
                     if k.state == "S":
-                        self.model.m_reload(k)
+                        # (the cascade only follows *loaded* collections: whether k was really expired is not known,
+                        # so its stale / ghost bookkeeping is kept)
+                        self.model.m_reload(k, really_expired=False)
                         todo.append(k)
         self.classes.add("expire")
 
